@@ -130,7 +130,12 @@ def gen_core(rng, kind):
         return "chk %s %s" % (L(space), L(tag))
     if kind == "kpf":
         pk = keys
-        pv = [f[k] for k in pk]
+        # round 6 (seed C14-r6b-1): half of the cases leave the leading factor(s) unspecified, and values are
+        # mostly non-zero, so that the multiplier of every skipped lower factor matters
+        if nf >= 2 and rng.random() < 0.5:
+            drop = rng.randint(1, nf - 1)
+            pk = [k for k in keys if k >= drop] or [rng.randrange(drop, nf)]
+        pv = [f[k] if (f[k] > 0 or rng.random() < 0.2) else space[k] - 1 for k in pk]
         ids = sorted(rng.sample(pk, rng.randint(1, len(pk))))
         return "kpf %s %s %s %s" % (L(ids), L(space), L(pk), L(pv))
     if kind == "iskip":
@@ -450,7 +455,7 @@ def gen_learn(rng, kind):
 
 CORE_KINDS = ["idx", "fac", "pidx", "pfac", "enum", "enum", "enumall", "enumskip", "enumskip", "enumskip",
               "enumskipall", "ienum", "ienum", "ienumall", "merge", "merge", "match", "matchp", "rmf", "matchf",
-              "matchk", "chk", "chk", "kpf", "iskip"]
+              "matchk", "chk", "chk", "kpf", "kpf", "kpf", "iskip"]
 
 def gen(rng, tier):
     n = {"quick": 800, "thorough": 8000, "search": 3000}[tier]
